@@ -191,7 +191,9 @@ class Index:
         return mnp.amin(self._v)
 
     def _arith(self, r):
-        return Int64Index(r) if isinstance(r, NDArr) else r
+        if not isinstance(r, NDArr):
+            return r
+        return Int64Index(r) if r.dtype.kind == "i" else Float64Index(r)
 
     def __add__(self, o):
         return self._arith(self._v + o)
@@ -208,6 +210,18 @@ class Index:
         return self._arith(self._v * o)
 
     __rmul__ = __mul__
+
+    def __truediv__(self, o):
+        return self._arith(self._v / o)
+
+    def __rtruediv__(self, o):
+        return self._arith(o / self._v)
+
+    def __floordiv__(self, o):
+        return self._arith(self._v // o)
+
+    def __mod__(self, o):
+        return self._arith(self._v % o)
 
     def __neg__(self):
         return self._arith(-self._v)
@@ -260,6 +274,10 @@ class Int64Index(Index):
                 import z3
 
                 a[i] = SInt(z3.ToInt(v.e))
+
+
+class Float64Index(Index):
+    pass
 
 
 class RangeIndex(Index):
@@ -446,7 +464,7 @@ class Series:
             index = Index(list(data.keys())) if index is None else index
             data = list(data.values())
         if data is None:
-            data = []
+            data = [mnp.nan] * (len(index) if index is not None else 0)
         if isinstance(data, NDArr) and _share:
             self._v = data
         else:
